@@ -24,7 +24,7 @@ func init() {
 		ID:    "C10",
 		Level: "exploration",
 		Rule: "full product of timestamp x CertData length x type GUID x following payload length for EFI_VARIABLE_AUTHENTICATION_2 (descriptor built by the reference writer), the same for plain WIN_CERTIFICATE (types 0x0002, 0x0EF0, 0x0EF1), " +
-			"values constructed through the library's own constructor, plus the .auth files shipped with the repository. Oracle per case: bytes consumed == 16+dwLength (dwLength for WIN_CERTIFICATE), payload left untouched, every field equals the reference's, " +
+			"DER-shaped WIN_CERTIFICATE bodies followed by 0..8 more bytes inside dwLength, sources of every reader kind (bytes.Buffer scribbled over afterwards, bytes.Reader, plain io.Reader, bufio.Reader that is read on), values constructed through the library's own constructor, plus the .auth files shipped with the repository. Oracle per case: bytes consumed == 16+dwLength (dwLength for WIN_CERTIFICATE), payload left untouched, every field equals the reference's, " +
 			"encode(decoded) == consumed bytes, decode(encode(v)) == v on the named fields. non-trivial = decode succeeded and all four checks were evaluated; distinct = distinct input bytes",
 		Assumptions: []string{"reference reader/writer refauth from UEFI 2.8 sections 8.2.2/32.2.4", "inputs with dwLength < 24 (descriptor) or < 8 (WIN_CERTIFICATE) belong to C14"},
 		Units:       func(tier string) []string { return []string{"auth2", "wincert", "constructed", "fixtures"} },
